@@ -16,6 +16,12 @@ binding: (a) TLC emits every case (ps, d0, g).  The harness replaces the module 
              The records are judged by TLC (UdpRepeatTrace.tla) with the operators of UdpRepeat.tla.
          (b) behaviours of UdpRepeatLoop (exhaustive tree + simulation) are replayed on two real nodes (own and
              foreign sender) and the recorded traces are validated by TLC (UdpRepeatLoopTrace.tla).
+         (c) specs/UdpSendLoop.tla models the send loop with two messages in flight (hand-over at any moment, also
+             while the loop sleeps); TLC checks OnTime / InOrder / Complete / WireEnvelope / termination and emits the
+             cases; each is replayed on the REAL _run_send under the virtual clock (the second message is handed over
+             from inside the loop's sleep) and the captured datagrams are judged by TLC (UdpSendLoopTrace.tla):
+             wire_count, wire_on_time (not before the planned time, at most one polling raster - the larger of the
+             module's two sleep constants - after it), wire_envelope (gaps on the wire = planned gaps +- raster).
 Parameter values are the ones CONFIGURED in the real module (read at run time and written into the generated cfg).
 time.time() is stubbed to 1000.0 s (offsets are exact to well below a microsecond); offsets are clamped to +-1000 s.
 Clause `reference` (queued offsets = Schedule(d0, g) exactly) is stronger than the statement; a case failing only
@@ -98,12 +104,19 @@ class ClockStub:
 
     def __init__(self):
         self.now = NOW
+        self.inject = []   # [(time, fn)]: things that happen while the code sleeps (a message is handed over)
 
     def time(self):
         return self.now
 
     def sleep(self, seconds):
-        self.now += seconds
+        end = self.now + seconds
+        while self.inject and self.inject[0][0] <= end:
+            t, fn = self.inject[0]
+            self.now = max(self.now, t)
+            fn()
+            self.inject.pop(0)
+        self.now = end
 
     def __getattr__(self, name):
         raise MachineryError(f'time.{name} is used by networkingthread but not modelled by the C15 harness')
@@ -495,11 +508,155 @@ def schedule_part(run, env: Env, only_cases: list | None = None):
     return records, failing
 
 
+# --------------------------------------------------------------------------- part (c): the datagrams on the wire
+class _QuitWhenNothingPending:
+    """Replaces _quit_send_event: the loop ends when the queue is empty and no hand-over is pending."""
+
+    def __init__(self, clock):
+        self._clock = clock
+
+    def is_set(self):
+        return not self._clock.inject
+
+    def set(self):
+        pass
+
+    def clear(self):
+        pass
+
+
+def run_overlap(env: Env, node: Node, case: dict, n: int) -> dict:
+    """Two messages in flight: A handed over at 0, B handed over (from inside the loop's sleep) at B.te."""
+    clock = env.clock
+    clock.now = NOW
+    clock.inject = []
+    mids = {}
+    kinds = {}
+
+    def hand_over(name):
+        c = case[name]
+        kind = KINDS[c['ps']][(n + (name == 'B')) % len(KINDS[c['ps']])]
+        before = {id(e.msg) for e in node.nt._send_queue.queue}
+        env.rnd.arm(c['d0'], c['g'])
+        node.send(c['ps'], kind)
+        if env.rnd.clamped or len(env.rnd.calls) != 2:
+            raise MachineryError(f'overlap case {case}: draws {env.rnd.calls} clamped={env.rnd.clamped}')
+        new = [e for e in node.nt._send_queue.queue if id(e.msg) not in before]
+        if not new:
+            raise MachineryError(f'overlap case {case}: message {name} was not queued')
+        mids[name] = new[0].msg.created_message.p_msg.header_info_block.MessageID.encode()
+        kinds[name] = kind
+
+    cap = _CaptureSocket(clock)
+    node.nt._outbound_selector = _CaptureSelector(cap)
+    saved_quit = node.nt._quit_send_event
+    node.nt._quit_send_event = _QuitWhenNothingPending(clock)
+    try:
+        for name in ('A', 'B'):
+            clock.inject.append((NOW + case[name]['te'] / 1000.0, lambda name=name: hand_over(name)))
+        clock.inject.sort(key=lambda x: x[0])
+        while clock.inject and clock.inject[0][0] <= clock.now:   # handed over before the loop polls for the first time
+            clock.inject[0][1]()
+            clock.inject.pop(0)
+        t = threading.Thread(target=node.nt._run_send, daemon=True)
+        t.start()
+        t.join(60)
+        if t.is_alive():
+            raise MachineryError('real send loop did not terminate under the virtual clock (overlap case)')
+    finally:
+        node.nt._quit_send_event = saved_quit
+        node.nt._outbound_selector = node._real_out_selector
+        clock.inject = []
+        node.drain()
+    tx = []
+    for (t_sent, data, _addr) in cap.sent:
+        names = [name for name, mid in mids.items() if mid in data]
+        if len(names) != 1:
+            raise MachineryError('a captured datagram belongs to no / several messages of the case')
+        tx.append({'t': _us(t_sent - NOW), 'm': names[0]})
+    raster = max(float(getattr(env.ntm, 'SEND_LOOP_IDLE_SLEEP', 0.1)), float(getattr(env.ntm, 'SEND_LOOP_BUSY_SLEEP', 0.01)))
+    return {'A': case['A'], 'B': case['B'], 'kinds': kinds, 'raster': _us(raster), 'tx': tx}
+
+
+def overlap_part(run, env: Env):
+    consts = tlc_consts(env, 1)
+    idle = round(float(getattr(env.ntm, 'SEND_LOOP_IDLE_SLEEP', 0.1)) * 1000)
+    busy = round(float(getattr(env.ntm, 'SEND_LOOP_BUSY_SLEEP', 0.01)) * 1000)
+    if idle <= 0 or busy <= 0:
+        raise MachineryError(f'send loop sleep constants {idle} / {busy} ms are not modelled')
+    consts.update({'Idle': idle, 'Busy': busy,
+                   'BTimes': run.pick('{1, 60, 300, 700}', '{1, 60, 255, 300, 470, 700, 1300, 2400}')})
+    cfg = gen_cfg('loop_mc', 'UdpSendLoop_mc.cfg', consts)
+    res = run_tlc('UdpSendLoop', cfg, workers=1, timeout=3000)
+    run.add_tlc(res)
+    cases = json_lines(res.stdout, 'LCASE')
+    seen, uniq = set(), []
+    for c in cases:
+        key = json.dumps([c['A'], c['B']], sort_keys=True)
+        if key not in seen:
+            seen.add(key)
+            uniq.append(c)
+    want = 4 * 12 * run.pick(4, 8)
+    if len(uniq) != want:
+        raise MachineryError(f'UdpSendLoop: expected {want} cases, TLC emitted {len(uniq)}')
+    node = Node(env)
+    try:
+        records = [run_overlap(env, node, c, i) for i, c in enumerate(uniq)]
+    finally:
+        node.close()
+    run.evaluations += len(records)
+    for r in records:
+        run.distinct_traces.add(('overlap', json.dumps([r['A'], r['B']], sort_keys=True)))
+    burst = sum(1 for r in records
+                if any(a['m'] != b['m'] for a, b in zip(r['tx'], r['tx'][1:])))
+    if not burst:
+        raise MachineryError('vacuous overlap check: the transmissions of the two messages never interleave')
+    run.note('overlap', {'cases': len(records), 'cases_with_interleaved_transmissions': burst,
+                         'loop_sleep_ms': {'idle': idle, 'busy': busy}})
+    run.sample({'overlap_case': {'A': records[len(records) // 2]['A'], 'B': records[len(records) // 2]['B']},
+                'datagrams_us': [[x['t'], x['m']] for x in records[len(records) // 2]['tx']],
+                'model_ms': uniq[len(records) // 2]['exp']})
+    tcfg = gen_cfg('loop_trace', 'UdpSendLoopTrace.cfg', consts)
+    rejects = tracecheck.validate(run, 'UdpSendLoopTrace', tcfg, [[r] for r in records], timeout=3000)
+    for ti, _li, clause in rejects:
+        r = records[ti]
+        descr = {'check': 'wire', 'clause': clause, 'ps': r['B']['ps']}
+        run.violation(descr, f'two messages in flight, A={r["A"]} B={r["B"]} (senders {r["kinds"]}): clause {clause} '
+                             f'fails; datagrams (ms, message) {[(round(x["t"] / 1000, 1), x["m"]) for x in r["tx"]]}; '
+                             f'model {uniq[ti]["exp"]}',
+                      {'part': 'overlap', 'case': uniq[ti], 'record': r})
+    return records
+
+
 # --------------------------------------------------------------------------- part (b): own ids are ignored
-def replay_loop(env: Env, beh: list, variant: int) -> list:
+_PREFILL: list = []
+
+
+def prefill_datagrams(env: Env, n: int) -> list:
+    """n datagrams of other nodes (made once): history a node has seen before the behaviour starts."""
+    if len(_PREFILL) < n:
+        b = Node(env)
+        try:
+            while len(_PREFILL) < n:
+                env.rnd.arm(free=True)
+                b.send('multicast', ('Probe', 'Hello')[len(_PREFILL) % 2])
+                _PREFILL.append(b.queued()[0].msg.created_message.serialize())
+                b.drain()
+        finally:
+            b.close()
+    return _PREFILL[:n]
+
+
+def replay_loop(env: Env, beh: list, variant: int, prefill: int = 0) -> list:
     a, b = Node(env), Node(env)   # a: node under test, b: produces the datagrams of other nodes
     try:
         real = {}   # abstract id -> (real MessageID, datagram)
+        if prefill:
+            # the node has already seen `prefill` messages of other nodes (its id memory is full): outside the abstract
+            # history, the projection only shows the ids of the behaviour
+            for data in prefill_datagrams(env, prefill):
+                a.feed(data)
+            a.rec.got.clear()
 
         def produce(node, i):
             ps, kind = ALL_KINDS[(variant + i) % len(ALL_KINDS)]
@@ -584,7 +741,15 @@ def loop_part(run, env: Env):
     if len(sim) < n_sim or not n_tree:
         raise MachineryError(f'expected {n_sim} simulated behaviours and a tree, got {len(sim)} / {n_tree}')
     behs += sim
-    traces = [replay_loop(env, b, i) for i, b in enumerate(behs)]
+    probe = Node(env)
+    try:
+        capacity = getattr(probe.nt._known_message_ids, 'maxlen', None)
+    finally:
+        probe.close()
+    fill = capacity if isinstance(capacity, int) and 0 < capacity <= 2000 else 200
+    # every 4th behaviour runs on a node whose id memory is already full of foreign ids
+    traces = [replay_loop(env, b, i, prefill=fill if i % 4 == 3 else 0) for i, b in enumerate(behs)]
+    run.note('loop_prefilled_memory', {'foreign_ids_seen_before': fill, 'behaviours': sum(1 for i in range(len(behs)) if i % 4 == 3)})
     run.evaluations += sum(len(t) - 1 for t in traces)
     # the model predicts the result of every step; compare what TLC predicted with what was seen in the judge only
     rejects = tracecheck.validate(run, 'UdpRepeatLoopTrace', 'UdpRepeatLoopTrace.cfg', traces, timeout=3000)
@@ -604,7 +769,8 @@ def loop_part(run, env: Env):
         run.violation(descr, f'own-id memory: {rec["act"]}({rec["id"]}, message kind {rec.get("kind", "-")}) -> '
                              f'{rec["res"]}: clause {clause} fails; '
                              f'known={rec["post"]["known"]} delivered={rec["post"]["delivered"]}',
-                      {'part': 'loop', 'behaviour': behs[ti], 'trace': traces[ti], 'failing_record': li})
+                      {'part': 'loop', 'behaviour': behs[ti], 'variant': ti, 'prefill': fill if ti % 4 == 3 else 0,
+                       'trace': traces[ti], 'failing_record': li})
     delivered = sum(1 for t in traces for r in t if r['act'] == 'Recv' and r['res'] == 'delivered')
     own_recv = sum(1 for t in traces for r in t if r['act'] == 'Recv' and r['id'].startswith('m'))
     if delivered == 0 or own_recv == 0:
@@ -629,7 +795,7 @@ def check(run, replay_path=None):
                 with open(replay_path) as f:
                     obj = json.load(f)['replay']
                 if obj.get('part') == 'loop':
-                    trace = replay_loop(env, obj['behaviour'], 0)
+                    trace = replay_loop(env, obj['behaviour'], obj.get('variant', 0), prefill=obj.get('prefill', 0))
                     rejects = tracecheck.validate(run, 'UdpRepeatLoopTrace', 'UdpRepeatLoopTrace.cfg', [trace])
                     print(f'replay {replay_path}: trace={[(r["act"], r["id"], r["res"]) for r in trace]} '
                           f'rejects={rejects}')
@@ -638,20 +804,36 @@ def check(run, replay_path=None):
                             run.violation({'check': 'loopback', 'clause': clause.replace('inv_', ''),
                                            'act': trace[li]['act'], 'res': trace[li]['res']},
                                           f'replay: clause {clause} fails', obj)
+                elif obj.get('part') == 'overlap':
+                    node = Node(env)
+                    try:
+                        rec = run_overlap(env, node, obj['case'], 0)
+                    finally:
+                        node.close()
+                    consts = tlc_consts(env, 1)
+                    consts.update({'Idle': 100, 'Busy': 10, 'BTimes': '{1}'})
+                    rejects = tracecheck.validate(run, 'UdpSendLoopTrace', gen_cfg('loop_trace', 'UdpSendLoopTrace.cfg', consts),
+                                                  [[rec]])
+                    print(f'replay {replay_path}: datagrams={[(x["t"], x["m"]) for x in rec["tx"]]} rejects={rejects}')
+                    for _ti, _li, clause in rejects:
+                        run.violation({'check': 'wire', 'clause': clause, 'ps': rec['B']['ps']},
+                                      f'replay: clause {clause} fails', obj)
                 else:
                     records, failing = schedule_part(run, env, only_cases=obj['cases'])
                     print(f'replay {replay_path}: ' + describe(records[0], obj['cases'][0].get('exp'))
                           + f' failing clauses={failing.get(0, [])}')
                 return
             schedule_part(run, env)
+            overlap_part(run, env)
             loop_part(run, env)
     finally:
         _cleanup()
     run.assumptions += [
         'random and time of networkingthread are replaced by stubs: draw #1 is the initial delay, draw #2 the first '
         'gap; outcomes are whole milliseconds (the code draws integers)',
-        'observed at the send queue (send_time - now, rounded to microseconds); the 10 ms raster of the real send '
-        'loop is not judged, only the number of datagrams it writes (sample)',
+        'schedule part: observed at the send queue (send_time - now, rounded to microseconds); wire part: datagrams '
+        'written by the real send loop under a virtual clock, judged up to the polling raster of the module '
+        '(max of SEND_LOOP_IDLE_SLEEP / SEND_LOOP_BUSY_SLEEP); sending itself takes no time',
         'parameter sets are the configured ones (read from the module at run time); a multicast destination must '
         'use MULTICAST_REPEAT_PARAMS, a unicast destination UNICAST_REPEAT_PARAMS',
         'own-id memory is judged within its capacity (fewer distinct foreign ids between send and loop-back than '
